@@ -207,6 +207,8 @@ def structural(ctx, sw, w, label, raw, recips, inner, want, alg, other=None):
         muts.append(('append an unencrypted %s' % nm, raw + pkt))
         muts.append(('prepend an unencrypted %s' % nm, pkt + raw))
         muts.append(('unencrypted %s between session keys and data' % nm, allesk + pkt + sp))
+        # the session keys kept, the data packet gone: what follows them is the attacker's own packet (never what decrypt yields)
+        muts.append(('encrypted data packet replaced by an unencrypted %s' % nm, allesk + pkt))
     # a packet re-tagged as a kind that PGPMessage takes without a key (modification detection code, marker, literal, compressed,
     # signature, one-pass signature), as it stands and with a header that swallows the rest of the message written where a reader that
     # ignores the declared length would stop (tag 19: 20 octets into the body) or at the first body octet.  (MDC.parse took 20 octets
